@@ -280,14 +280,20 @@ func runScript(t *testing.T, tr *Tracer, sc *Script) {
 			// a second attack runs on the same Attacker all the while (one hit per millisecond against another host, its own
 			// pacer, targeter and consumer, none of them observed); it ends when the Attacker is stopped.  Whatever it does,
 			// the observed attack keeps its own sequence numbers, workers and results.
-			other := atk.Attack(vegeta.NewStaticTargeter(vegeta.Target{Method: "GET", URL: "http://twin.invalid/"}),
-				twinPacer{}, 0, "twin")
+			// (every other time it begins three instants into the observed attack instead of before it)
+			late := time.Duration(sc.ID%8/4*3) * time.Millisecond
 			wg.Add(1)
 			go func() {
 				defer wg.Done()
+				time.Sleep(late)
+				other := atk.Attack(vegeta.NewStaticTargeter(vegeta.Target{Method: "GET", URL: "http://twin.invalid/"}),
+					twinPacer{}, 0, "twin")
 				for range other {
 				}
 			}()
+			if late == 0 {
+				synctest.Wait() // the second attack is under way
+			}
 		}
 		results := atk.Attack(targeter, &scriptPacer{tr: tr, sc: sc, now: now, cap: paceCap(sc)}, time.Duration(sc.Du)*time.Millisecond, sc.Name)
 
